@@ -124,6 +124,10 @@ type spec struct {
 	States  []string `json:"states"`
 	Outputs []string `json:"outputs"`
 	Dims    []string `json:"dimensions"` // distinct dimension names, first-occurrence order
+	// where ow-specgen puts the wrapper of this model, and what a value of the wrapper type looks like to reflect
+	WrapperFile string `json:"wrapper_file"` // <dir of the spec file>/generated_<Name>.go
+	WrapperPkg  string `json:"wrapper_pkg"`  // import path: <module path of go.mod>/<dir of the spec file>
+	WrapperType string `json:"wrapper_type"` // *<package name>.<Name>
 }
 
 type problem struct {
@@ -395,6 +399,16 @@ func writeCoq(path, module, note string, specs []spec) (bool, error) {
 	}
 	fmt.Fprintf(&b, "Definition all : list ow_spec :=\n  [%s].\n\n", strings.Join(ids, ";\n   "))
 	fmt.Fprintf(&b, "(* number of models declared by spec blocks at generation time *)\nDefinition spec_count : Z := %d.\n", len(specs))
+	fmt.Fprintf(&b, "\n(* per model: the file ow-specgen writes its wrapper to (directory of the spec file, generated_<name>.go),\n   the import path of that directory (module path of go.mod + directory) and the wrapper type as reflect prints it *)\n")
+	fmt.Fprintf(&b, "Definition wrappers : list (string * wrapper_id) := [")
+	for i, s := range specs {
+		if i > 0 {
+			b.WriteString(";")
+		}
+		fmt.Fprintf(&b, "\n  (%s, {| wi_file := %s; wi_pkg := %s; wi_name := %s; wi_type := %s |})",
+			coqStr(s.Name), coqStr(s.WrapperFile), coqStr(s.WrapperPkg), coqStr(s.Name), coqStr(s.WrapperType))
+	}
+	fmt.Fprintf(&b, "].\n")
 	return writeIfChanged(path, b.Bytes())
 }
 
@@ -452,6 +466,18 @@ func main() {
 	probs := []problem{}
 	for _, f := range files {
 		processFile(*root, f, &specs, &probs)
+	}
+	modPath := ""
+	if gm, err := ioutil.ReadFile(filepath.Join(*root, "go.mod")); err == nil {
+		if m := regexp.MustCompile(`(?m)^module\s+(\S+)`).FindSubmatch(gm); m != nil {
+			modPath = string(m[1])
+		}
+	}
+	for i := range specs {
+		dir := filepath.ToSlash(filepath.Dir(specs[i].File))
+		specs[i].WrapperFile = dir + "/generated_" + specs[i].Name + ".go"
+		specs[i].WrapperPkg = modPath + "/" + dir
+		specs[i].WrapperType = "*" + specs[i].Package + "." + specs[i].Name
 	}
 	if *coq != "" {
 		if *note == "" {
